@@ -113,10 +113,10 @@ def decorate(p, rng, runnable):
             l["magdir"] = rng.choice([0.0, 45.0, -90.5])
         if k == "m" and not runnable and rng.random() < 0.2:
             l["magdirfctn"] = rng.choice(["theta", "x+y", "R*2"])
-        if not runnable and rng.random() < 0.2:
-            l["ext"] = 1
-        if not runnable and rng.random() < 0.2:
-            l["default"] = 1
+        # the two flags share one packed column of the label record (1 = external, 2 = default, 3 = both): every combination, per kind
+        if not runnable:
+            r = rng.random()
+            l["ext"], l["default"] = (1, 0) if r < 0.15 else (0, 1) if r < 0.3 else (1, 1) if r < 0.5 else (l.get("ext", 0), l.get("default", 0))
     if rng.random() < 0.3:
         p.add_hole(0.5, 0.5, group=rng.randint(0, 3)) if not runnable else None
     return p
